@@ -34,7 +34,12 @@
 (* NUMA nodes and CPUs removed singly: every instance for the (feature     *)
 (* class, path class) pairs of Interesting, a few instances otherwise;     *)
 (* pairs of core paths for small snapshots; whole classes (striped); in    *)
-(* simulation up to SimMax paths and possibly a class.                     *)
+(* simulation up to SimMax paths and possibly a class; staggered removals   *)
+(* (SnStaggered pairs of Snapshot.tla: the attributes that partition the   *)
+(* instances, CPU kinds): the j-th attribute class of the matrix is        *)
+(* removed on the instances of ONE residue class modulo m, a different one *)
+(* per attribute class, for every modulus of StagMods and offset of        *)
+(* StagOffs: the partitions of the attributes stop nesting.                *)
 (* Configurations: component selection x filter preset, optionally followed *)
 (* by ONE type filter (type, filter) on a type the snapshot really has     *)
 (* (TargetModes: the type removed with the rest default / kept; the type   *)
@@ -62,6 +67,8 @@ CONSTANTS TableFile,     \* ndjson file with the path tables
           InstFlagSeqs,  \* flag words run on the per-instance removals and on the type-targeted configurations
           TargetTypes,   \* types whose filter a targeted configuration sets
           TargetModes,   \* sequence of <<preset, filter>>: the filter given to the type after the preset
+          StagMods,      \* moduli of the staggered removals ({}: none)
+          StagOffs,      \* their offsets (taken modulo the modulus)
           TargetStride   \* 1: every mode for every type of the unmodified snapshot; n: the first mode and one out of n of the others
 
 Tabs == ndJsonDeserialize(TableFile)
@@ -87,6 +94,7 @@ ASSUME /\ Sel \subseteq 1..NSnap
             /\ SeqSet(tab.types) \subseteq 0..(NTYPES - 1)
        /\ \A fs \in FlagSeqs \cup InstFlagSeqs : \A j \in DOMAIN fs : FlagsLegal(fs[j])
        /\ TargetTypes \subseteq SnTargetable
+       /\ StagMods \subseteq (Nat \ {0, 1}) /\ StagOffs \subseteq Nat
        /\ \A m \in DOMAIN TargetModes : TargetModes[m][1] \in SnPresetSet /\ TargetModes[m][2] \in 0..3
 
 VARIABLES pc, sn, rs, how, cfg, todo, hist
@@ -135,6 +143,23 @@ InstAll == [k \in 1..NSnap |-> IF k \notin Sel THEN {} ELSE UNION {RowSet(Tabs[k
 ASSUME \A k \in Sel : \A c \in DOMAIN Tabs[k].inst :
          (Hot(k, c) /\ InstOn) => \A i \in DOMAIN Tabs[k].inst[c].rows : SeqSet(Tabs[k].inst[c].rows[i]) \cap InstSel[k] # {}
 
+\* ---- staggered removals: the attribute classes of a matrix, each removed on a different residue class of instances ----
+\* the attribute classes of the c-th matrix: the classes (same attribute of different instances) made of its paths only,
+\* in path order; the j-th of them (from 0) loses its path on the instances i with SnStaggerLoses(i, j, m, s)
+StagClasses(k, c) == LET all == RowSet(Tabs[k].inst[c].rows, DOMAIN Tabs[k].inst[c].rows) IN
+                     {cl \in DOMAIN Tabs[k].classes : SeqSet(Tabs[k].classes[cl]) \subseteq all}
+StagSet(k, c, m, s) ==
+  LET rows == Tabs[k].inst[c].rows
+      KC == StagClasses(k, c)
+      members == [cl \in KC |-> SeqSet(Tabs[k].classes[cl])]
+      rank == [cl \in KC |-> Cardinality({x \in KC : x < cl})]
+  IN UNION {{p \in SeqSet(rows[i]) : \E cl \in KC : p \in members[cl] /\ SnStaggerLoses(i, rank[cl], m, s)} : i \in DOMAIN rows}
+StagMatrices(k) == {c \in DOMAIN Tabs[k].inst : \E fc \in SeqSet(Tabs[k].feat) : SnStaggered(fc, Tabs[k].inst[c].pc)}
+\* constant table: per snapshot the fault sets <<matrix, modulus, offset, paths>> (those that remove nothing or one path only
+\* are no stagger)
+StagSel == [k \in 1..NSnap |-> IF k \notin Sel THEN {} ELSE
+              {x \in {<<c, m, s % m, StagSet(k, c, m, s % m)>> : c \in StagMatrices(k), m \in StagMods, s \in StagOffs} : Cardinality(x[4]) >= 2}]
+
 \* ---- type-targeted configurations: types of the unmodified snapshot whose filter the model sets on its own ----
 TargetSet == [k \in 1..NSnap |-> IF k \notin Sel THEN {} ELSE SeqSet(Tabs[k].types) \cap TargetTypes]
 \* a targeted configuration must differ from the preset it starts from
@@ -172,6 +197,13 @@ RemoveClass ==
   /\ pc = "faults" /\ ~SimMode /\ how = "none"
   /\ \E c \in ClassSel[sn] : rs' = SeqSet(Tabs[sn].classes[c]) /\ hist' = Append(hist, <<"rmclass", c>>)
   /\ how' = "class"
+  /\ UNCHANGED <<pc, sn, cfg, todo>>
+
+\* the attributes that partition the instances, each removed on a different part of them
+RemoveStaggered ==
+  /\ pc = "faults" /\ ~SimMode /\ how = "none"
+  /\ \E x \in StagSel[sn] : rs' = x[4] /\ hist' = Append(hist, <<"rmstag", x[4], x[1], x[2], x[3]>>)
+  /\ how' = "stag"
   /\ UNCHANGED <<pc, sn, cfg, todo>>
 
 \* simulation: up to SimMax paths, three quarters of them in the core area, and a class every other time
@@ -245,14 +277,14 @@ Destroy == /\ pc = "D" /\ todo # <<>>
 \* simulation prints a finished history from a last, never enabled, disjunct
 SimEnd == SimMode /\ pc = "done" /\ PrintT(<<"TUPLE", ToJson(hist)>>) /\ FALSE /\ UNCHANGED vars
 
-Next == Pick \/ RemoveOne \/ RemoveClass \/ RemoveMany \/ Configure \/ ConfigureTargeted \/ LoadA \/ LoadB \/ XmlTrip \/ Destroy \/ SimEnd
+Next == Pick \/ RemoveOne \/ RemoveClass \/ RemoveStaggered \/ RemoveMany \/ Configure \/ ConfigureTargeted \/ LoadA \/ LoadB \/ XmlTrip \/ Destroy \/ SimEnd
 Spec == Init /\ [][Next]_vars
 SnView == <<pc, sn, rs, how, cfg, todo>>
 
 (* ---- invariants: about the enumeration itself ---- *)
 TypeOK == /\ pc \in {"pick", "faults", "A", "B", "X", "D", "done"}
           /\ sn \in 0..NSnap /\ (pc # "pick" => sn \in Sel)
-          /\ how \in {"none", "single", "inst", "pair", "class", "multi"}
+          /\ how \in {"none", "single", "inst", "pair", "class", "stag", "multi"}
           /\ (pc \in {"pick", "faults"}) = (cfg = NoCfg)
 \* only removable paths are ever removed: a numbered instance directory never is, on its own
 RuleOK == sn # 0 => FaultSetOK(Tabs[sn], rs)
@@ -262,6 +294,10 @@ BudgetOK == /\ how = "none" => rs = {}
             /\ how = "inst" => Cardinality(rs) = 1 /\ rs \subseteq InstAll[sn]
             /\ how = "pair" => Cardinality(rs) = 2 /\ Small(sn) /\ rs \subseteq CandSet[sn]
             /\ how = "class" => \E c \in DOMAIN Tabs[sn].classes : rs = SeqSet(Tabs[sn].classes[c])
+            \* a staggered removal takes per-instance attributes of ONE matrix of a SnStaggered pair only
+            /\ how = "stag" => \E c \in StagMatrices(sn), m \in StagMods : \E s \in 0..(m - 1) :
+                                  /\ rs = StagSet(sn, c, m, s) /\ Cardinality(rs) >= 2
+                                  /\ rs \subseteq RowSet(Tabs[sn].inst[c].rows, DOMAIN Tabs[sn].inst[c].rows)
             /\ how = "multi" => \E c \in {0} \cup DOMAIN Tabs[sn].classes :
                                   Cardinality(rs \ (IF c = 0 THEN {} ELSE SeqSet(Tabs[sn].classes[c]))) <= SimMax
 CfgOK == cfg # NoCfg => /\ cfg.comp \in SeqSet(SnComps(Tabs[sn].kind))
